@@ -152,11 +152,11 @@ def run(chk: Check, repo: Repo) -> None:
     pc_writes = [w for w in attr_writes(repo, "position_closed", include_mutators=False)]
     pc_ok = all(w.func.qualname == "TravelCalculator.__init__" and isinstance(w.stmt, (ast.Assign, ast.AnnAssign)) and isinstance(w.stmt.value, ast.Constant) and w.stmt.value.value not in (0, None) for w in pc_writes) and bool(pc_writes)
     reviewed = {
-        "ZeroDivisionError|TravelCalculator._calculate_position|(now - self._last_known_position_timestamp) / remaining_travel_time": ("the quotient is computed only where now < timestamp + remaining for the same reading; readings are non-decreasing, so remaining > 0", lambda: guarded_ok),
-        "ZeroDivisionError|TravelCalculator.calculate_travel_time|travel_time_full * abs(travel_range) / self.position_closed": ("position_closed is the constant 100 set in __init__ and never written elsewhere", lambda: pc_ok),
+        "ZeroDivisionError|TravelCalculator._calculate_position|(time.time() - self._last_known_position_timestamp) / self.calculate_travel_time(…": ("the quotient is computed only where now < timestamp + remaining for the same reading; readings are non-decreasing, so remaining > 0", lambda: guarded_ok),
+        "ZeroDivisionError|TravelCalculator.calculate_travel_time|… / self.position_closed": ("position_closed is the constant 100 set in __init__ and never written elsewhere", lambda: pc_ok),
     }
     for exc in ("OverflowError", "ValueError"):
-        reviewed[f"{exc}|TravelCalculator._calculate_position|int(self._last_known_position + relative_position * progress)"] = ("progress lies in [0, 1) by the guard and the positions are ints, so the interpolated value is finite", lambda: guarded_ok)
+        reviewed[f"{exc}|TravelCalculator._calculate_position|int(self._last_known_position + (self._travel_to_position - self._last_known_position) * (…"] = ("progress lies in [0, 1) by the guard and the positions are ints, so the interpolated value is finite", lambda: guarded_ok)
     for q in ("current_position", "is_traveling", "position_reached", "stop", "start_travel", "update_position", "set_position", "is_open", "is_closed"):
         if q in cls.methods:
             check_entry(chk, mr, cls.methods[q], (), label=f"TravelCalculator.{q}", reviewed=reviewed)
